@@ -462,6 +462,53 @@ func c16Workload(env *scratch.Env, tier string, rng *core.Rand) []*c16Exec {
 				mk("indent-tab", fmt.Sprintf("%s:%d", s.name, li), strings.Join(nl, "\n"), nil)
 			}
 		}
+		// --- line-ending conventions: the whole file saved with CRLF / CR / CR CR LF / LF CR line ends,
+		// and that file cut in and after its line ends (a carriage return that lost its line feed)
+		for _, le := range []struct{ name, nl string }{{"crlf", "\r\n"}, {"cr", "\r"}, {"crcrlf", "\r\r\n"}, {"lfcr", "\n\r"}} {
+			conv := strings.ReplaceAll(src, "\n", le.nl)
+			mk("line-ending", s.name+":"+le.name, conv, nil)
+			nEnds := strings.Count(conv, le.nl)
+			lstride := 1
+			if quick && nEnds > 6 {
+				lstride = nEnds/6 + 1
+			}
+			at, k := 0, 0
+			for {
+				i := strings.Index(conv[at:], le.nl)
+				if i < 0 {
+					break
+				}
+				at += i
+				if k%lstride == 0 {
+					for cut := 1; cut <= len(le.nl); cut++ {
+						mk("line-ending-cut", fmt.Sprintf("%s:%s@%d+%d", s.name, le.name, at, cut), conv[:at+cut], nil)
+					}
+				}
+				at += len(le.nl)
+				k++
+			}
+		}
+		// --- one hostile byte (control characters, bytes that are not UTF-8, a BOM, U+2028) inserted at a
+		// token boundary: before a token, inside the line, at the line end
+		{
+			hostile := []string{"\r", "\x00", "\x0b", "\x0c", "\x1b", "\x7f", "\x80", "\xc3", "\xff", "\xef\xbb\xbf", "\xe2\x80\xa8", "\xc2\xa0"}
+			var bounds []int
+			off := 0
+			for _, t := range toks {
+				bounds = append(bounds, off)
+				off += len(t)
+			}
+			per := 4
+			if !quick {
+				per = 40
+			}
+			for hi, hb := range hostile {
+				for k := 0; k < per && len(bounds) > 0; k++ {
+					b := bounds[(hi*131+k*977+si*31+rng.Intn(len(bounds)))%len(bounds)]
+					mk("byte-insert", fmt.Sprintf("%s@%d+%q", s.name, b, hb), src[:b]+hb+src[b:], nil)
+				}
+			}
+		}
 		// --- unterminated constructs at the end and at line ends
 		trimmed := strings.TrimRight(src, "\n")
 		for _, tailS := range []string{"\n// comment without newline", "\n//", " // c", "\n/* open", "\n/*", "\n\"open", "\n`open", "\n$\"open {a", "\n$`open {", "\n{", "\n(", "\n[", "\n1", "\n\\", "\nlet", "\nlet x =", "\nlet f x =\n", "\ntype", "\ntype T =", "\ntype T = {", "\nmatch", "\n|", "\n|>", "\nif", "\nif a then", "\npackage_info", "\npackage_info x =", "\n  ", "\n\t", "\x00", "\n\xff\xfe", "\r\n", "\nlet y = 1 /", "\nlet z = \"a\\", "\nfun", "\nfun x ->"} {
